@@ -178,15 +178,16 @@ def runTree (coll : String) (op : Toks) (st : St Int) (inj : Option Nat) : Strin
   let cbs (visited : Nat) : Nat := if isSet then 2 * visited else visited
   let noCb (n : Nat) (out : String) (st' : St Int) : String :=
     -- map/set: all callbacks precede the first write, so an injected panic leaves the pre-state
+    let ns := if isKey then "" else s!"n={n}"
     match inj with
-    | none => answer wf out (showSt st') s!"n={n}"
-    | some k => if k < n then answer wf "panic" (showSt st) s!"n={n}" else answer wf "no-such-callback" "-" s!"n={n}"
+    | none => answer wf out (showSt st') ns
+    | some k => if k < n then answer wf "panic" (showSt st) ns else answer wf "no-such-callback" "-" ns
   match isKey, op with
   | _, ["new", c] => match tokNat c with
     | some c => answer "1" "ok" (showSt (St.new c : St Int)) ""
     | none => "BAD"
   | false, ["insert", k, v] => match tokInt k, tokInt v with
-    | some k, some v => noCb (if isSet then 2 * st.tree.visitIns k + 1 else st.tree.visitIns k) "ok" (st.insert ⟨k, 0, v⟩)
+    | some k, some v => noCb (if isSet then (if st.tree.isLeaf then 0 else 2 * st.tree.visitIns k + 1) else st.tree.visitIns k) "ok" (st.insert ⟨k, 0, v⟩)
     | _, _ => "BAD"
   | false, ["delete", k] => match tokInt k with
     | some k => match st.delete k with
